@@ -11,8 +11,9 @@ def py_replay(mods, scn, cse, presentation=None, force_ekf=False, keep_trace=Fal
 def mf_replay_batch(mods, scns):
     import mfrep
     out = []
-    for s in scns:
-        out.append(mfrep.replay(mods, s))
+    for i, s in enumerate(scns):
+        # every third history happens 2^20 s (12 days) later on the time axis
+        out.append(mfrep.replay(mods, s, offset=(2.0 ** 20 if i % 3 == 2 else 0.0)))
     return out
 
 
